@@ -501,6 +501,11 @@ def rule_rlock(ctx, rep):
             g = guarded_by(f, s, lambda a: _mask_test(a, lambda e: e[0] == "load") is not None and a[0] == "ne", maxup=3)
             rep.check(g and e[3][1] == 1, "C01.rlock", fl + ".nested-increment", "nested read_lock adds COUNT=%d on the nest!=0 edge" % e[3][1],
                       "nested increment on wrong edge or wrong constant %d" % e[3][1], [s.where()])
+        # every read_lock adds a level (or publishes the snapshot, whose count is COUNT): a nested lock that stores nothing is undone by its
+        # unlock - the outer section ends early as far as the grace period can see
+        allst = outer + [s for s, e in nested]
+        rep.must_pass("C01.rlock", fl + ".every-path-stores", f, [f.entry()], None, lambda i: i in allst, to_exit=True, include_start=True,
+                      what="every path through read_lock stores the reader word (snapshot when outermost, count + COUNT when nested)")
         # leading compiler barrier before first load
         lds = [e.inst for e in pat.accesses(f, F.rfield, ("load",), pred=own)]
         rep.must_pass("C01.rlock", fl + ".leading-barrier", f, [f.entry()], lds, lambda i: mm.is_compiler(i, f.mod), include_start=True,
@@ -549,6 +554,14 @@ def rule_runlock(ctx, rep):
                               what="outermost read_unlock: SLAVE|FULL between the reader-word store and the futex test (store→load)")
             else:
                 rep.ok("C01.runlock", fl + ".store→barrier→futex", "reader-word store is seq_cst (FULL after it) before the futex test", [s.where() for s in outer])
+        # every read_unlock takes one level off, nested or outermost: a nested unlock that leaves the count alone never lets the outermost
+        # one be recognised - the reader stays `in a critical section` for ever and every grace period waits for it
+        dec = [s for s in sts if s.op == "store" and (lambda e: e[0] == "bin" and ((e[1] == "sub" and e[3][0] == "c" and e[3][1] > 0) or (e[1] == "add" and e[3][0] == "c" and e[3][1] < 0)) and e[2][0] == "load")(ir.expr(f, s.args[0]))]
+        if dec:
+            rep.must_pass("C01.runlock", fl + ".every-path-decrements", f, [f.entry()], None, lambda i: i in dec, to_exit=True, include_start=True,
+                          what="every path through read_unlock stores the nest count minus COUNT (nested and outermost alike)")
+        else:
+            rep.unk("C01.runlock", fl + ".every-path-decrements", "no store of `ctr - COUNT` recognised in read_unlock")
         # trailing compiler barrier
         rep.must_pass("C01.runlock", fl + ".trailing-barrier", f, sts, None, lambda i: mm.is_compiler(i, f.mod), to_exit=True,
                       what=">=compiler barrier after the store")
